@@ -121,6 +121,7 @@ class SharedMemoryFileBufferedCollection(FileBufferedCollection):
             else:
                 # If the contents have not been changed since the initial read,
                 # we don't need to rewrite it.
+                failed = True
                 try:
                     # Validate that the file hasn't been changed by
                     # something else.
@@ -131,15 +132,18 @@ class SharedMemoryFileBufferedCollection(FileBufferedCollection):
                         # the shared store if it never accessed the buffer.
                         self._data = cached_data["contents"]
                         self._save_to_resource()
+                    failed = False
                 finally:
                     # Whether or not an error was raised, the cache must be
                     # cleared to ensure a valid final buffer state, unless
                     # we're force flushing in which case we never delete, but
                     # take note that the data is no longer modified relative to
-                    # its representation on disk.
+                    # its representation on disk. A force flush that failed also
+                    # clears the entry: the buffered copy is not what is on disk,
+                    # so it must not be kept as if it were in sync with the file.
                     if cached_data["modified"]:
                         type(self)._CURRENT_BUFFER_SIZE -= 1
-                    if not force:
+                    if not force or failed:
                         del type(self)._buffer[self._filename]
                     else:
                         # Have to update the metadata on a force flush because
